@@ -29,8 +29,9 @@ ASSUMPTIONS = ["no offline ground truth of the real server exists: the model is 
                "that answers with an empty list is generated only for devices registered under the little-endian id (asked for first) - with such a "
                "service the unchanged client gives up before trying the big-endian id, which is outside what can be checked against a real service offline",
                "a request that times out keeps the caller waiting 10 s of loop time, so the wall clock has moved on when it is resent"]
-ANCHORS = ["cloud.py:NetHomePlusCloud._Security.sign", "cloud.py:NetHomePlusCloud._Security.encrypt_password", "cloud.py:NetHomePlusCloud._api_request",
-           "cloud.py:BaseCloud.get_token", "cloud.py:BaseCloud._post_request", "cloud.py:NetHomePlusCloud.login", "discover.py:Discover._authenticate_device"]
+# reach anchors: only entry points this check calls itself or callbacks the event loop needs (robust against internal refactors);
+# that the mechanism was really exercised is demanded through MIN_NONTRIVIAL / MIN_HIST outcome counts
+ANCHORS = ["cloud.py:NetHomePlusCloud.login", "cloud.py:BaseCloud.get_token", "discover.py:Discover.discover"]
 MIN_NONTRIVIAL = {"quick": 1500, "thorough": 30000}
 MIN_HIST = {"quick": {"token-returned-correct": 500, "e2e-authenticated": 40}, "thorough": {"token-returned-correct": 10000, "e2e-authenticated": 800}}
 WORKERS = {"quick": 1, "thorough": 16}
@@ -129,6 +130,14 @@ def _generate(ctx, rng):
                                    "endians": [rng.choice(["little", "big"]) for _ in range(nd)], "cred": _cred(rng),
                                    "faults": [rng.choice(FAULTS)] * rng.choice([1, 1, 2, 3]), "cseed": rng.getrandbits(32),
                                    "fault_stage": rng.choice([0, 1])}
+    # ... and faults while the token of a discovered device is fetched: exhausted timeouts, HTTP failures and API error codes on
+    # getToken must surface from Discover.connect() as CloudError; one or two timeouts are retried and the device is authenticated
+    for j in range(60 if quick else 7500):
+        nd = rng.randint(2, 3)
+        f = (FAULTS + MORE_FAULTS)[j % len(FAULTS + MORE_FAULTS)] if j < 2 * len(FAULTS + MORE_FAULTS) else rng.choice(FAULTS + MORE_FAULTS)
+        yield ("e2e-connect-token", j), {"kind": "e2e-connect", "ids": [rng.getrandbits(48) | 1 for _ in range(nd)],
+                                         "endians": [rng.choice(["little", "big"]) for _ in range(nd)], "cred": _cred(rng),
+                                         "faults": [f] * rng.choice([1, 2, 3]), "cseed": rng.getrandbits(32), "fault_stage": 2}
     for j in range(60 if quick else 12500):
         yield ("e2e", j), {"kind": "e2e", "id": rng.getrandbits(48) | 1, "endian": rng.choice(["little", "big"]), "token": rng.randbytes(64),
                            "key": rng.randbytes(32), "cred": _cred(rng), "mode": rng.choice(["broadcast", "single"]), "others": rng.randint(0, 2)}
@@ -367,7 +376,7 @@ def _e2e_connect(ctx, case):
         model.registry[cloudsrv.udpid(did, endian)] = (token.hex(), key.hex())
         devs.append((ip, did, token, key, SimDevice(net, host=ip, port=6444, version=3, token=token, key=key, device_id=did)))
         SimHost(net, ip, 6445, [(0.05 + 0.01 * i, None, D.build_reply(3, did, D.build_payload(ip, 6444, b"2" * 32, b"net_ac_%04X" % i)))])
-    stage_paths = ["/v1/user/login/id/get", "/v1/user/login"]
+    stage_paths = ["/v1/user/login/id/get", "/v1/user/login", "/v1/iot/secure/getToken"]
     pending = list(case["faults"])
     orig_handle = model.handle
 
@@ -415,6 +424,24 @@ def _e2e_connect(ctx, case):
             bad = True
             ctx.violation(f"e2e-connect/{what}", f"device {ip}: {what}", case)
             continue
+        if consumed and case["fault_stage"] == 2:
+            # the fault script is n copies of one fault kind, consumed from the first getToken request on: a timeout is retried
+            # (RETRIES = 3 attempts per request), every other failure ends the request
+            f, n = case["faults"][0], len(case["faults"])
+            if f in TIMEOUT_FAULTS:
+                expect = "CloudError" if (i == 0 and n >= 3) else "connected"
+            else:
+                expect = "CloudError"
+            ctx.bump(f"connects-with-getToken-faults/{expect}")
+            if what != expect:
+                bad = True
+                ctx.violation(f"getToken-fault-outcome/{'timeout' if f in TIMEOUT_FAULTS else 'failure'}", f"device {ip}: Discover.connect() with {consumed} x {f} on getToken ended as "
+                              f"{what}, expected {expect}", case, {"outcomes": [o[:2] + (o[3],) for o in outcomes]})
+            elif what == "connected":
+                ip_, did, token, key, sim = devs[i]
+                if (d.token, d.key) != (token.hex(), key.hex()) or not d.online:
+                    bad = True
+                    ctx.violation("e2e-not-authenticated-after-token-retry", f"device {ip}: token set={d.token is not None}, online={d.online}", case)
         if consumed == 0:
             ip_, did, token, key, sim = devs[i]
             ctx.bump("connects-with-healthy-cloud")
